@@ -94,6 +94,8 @@ type c16World struct {
 	swapMsg swaptypes.MsgServer
 	earnMsg earntypes.MsgServer
 
+	setupErrs []string
+
 	swapIDs [][]byte // bep3 swaps created by committed operations, newest first
 	nonce   int      // makes random number hashes distinct
 }
@@ -186,7 +188,8 @@ func c16Setup(r *Rng) *c16World {
 			sdk.NewInt64Coin("ukava", 1_000_000_000_000), sdk.NewInt64Coin("usdx", 1_000_000_000_000),
 			sdk.NewInt64Coin("xrp", 1_000_000_000_000))
 		for k := 0; k < nAssets; k++ {
-			if owners[k] == i {
+			// the owner and some other users hold the asset (a redeem by a non-owner would not fail for lack of funds)
+			if owners[k] == i || r.Chance(1, 2) {
 				coins = coins.Add(sdk.NewInt64Coin(c16IssDenoms[k], int64(100+r.Intn(900))))
 			}
 		}
@@ -275,8 +278,8 @@ func c16Setup(r *Rng) *c16World {
 	// ---- hard
 	mm := func(denom, market string) hardtypes.MoneyMarket {
 		return hardtypes.MoneyMarket{
-			Denom:       denom,
-			BorrowLimit: hardtypes.BorrowLimit{HasMaxLimit: true, MaximumLimit: dec("100000000000000"), LoanToValue: dec("0.5")},
+			Denom:        denom,
+			BorrowLimit:  hardtypes.BorrowLimit{HasMaxLimit: true, MaximumLimit: dec("100000000000000"), LoanToValue: dec("0.5")},
 			SpotMarketID: market, ConversionFactor: sdkmath.NewInt(1_000_000),
 			InterestRateModel: hardtypes.InterestRateModel{BaseRateAPY: dec("0"), BaseMultiplier: dec("0.05"), Kink: dec("0.8"), JumpMultiplier: dec("5")},
 			ReserveFactor:     dec("0.025"), KeeperRewardPercentage: dec("0.02"),
@@ -338,9 +341,11 @@ func c16Setup(r *Rng) *c16World {
 	w.earnMsg = earnkeeper.NewMsgServerImpl(ek)
 
 	// ---- initial records, through the keepers
+	// a refused set-up step is tolerated (the history then starts from whatever
+	// records exist): the tree under test may refuse it, and the probes still run
 	must := func(err error) {
 		if err != nil {
-			panic(fmt.Sprintf("c16 setup: %v", err))
+			w.setupErrs = append(w.setupErrs, err.Error())
 		}
 	}
 	funded := []int{0, 1, 2, 3, 4, 5, 6, 7, 8}
@@ -389,6 +394,22 @@ func c16Setup(r *Rng) *c16World {
 		}
 		if r.Chance(2, 3) {
 			must(ek.Deposit(w.ctx, users[u], sdk.NewInt64Coin("bnb", int64(1+r.Intn(5000))*1000), earntypes.STRATEGY_TYPE_SAVINGS))
+		}
+	}
+	// yield: the vaults' strategy deposits grow, so that a share is worth more than one coin
+	earnAddr := w.addrs[w.earn]
+	if r.Chance(1, 2) {
+		if d, ok := hk.GetDeposit(w.ctx, earnAddr); ok && d.Amount.AmountOf("usdx").IsPositive() {
+			y := sdk.NewCoins(sdk.NewInt64Coin("usdx", int64(1+r.Intn(900))*1000+int64(r.Intn(1000))))
+			must(tApp.FundModuleAccount(w.ctx, earntypes.ModuleName, y))
+			must(hk.Deposit(w.ctx, earnAddr, y))
+		}
+	}
+	if r.Chance(1, 2) {
+		if d, ok := sk.GetDeposit(w.ctx, earnAddr); ok && d.Amount.AmountOf("bnb").IsPositive() {
+			y := sdk.NewCoins(sdk.NewInt64Coin("bnb", int64(1+r.Intn(900))*1000+int64(r.Intn(1000))))
+			must(tApp.FundModuleAccount(w.ctx, earntypes.ModuleName, y))
+			must(sk.Deposit(w.ctx, earnAddr, y))
 		}
 	}
 	return w
